@@ -29,16 +29,39 @@ func fnOfValue(v ssa.Value) *ssa.Function {
 	return nil
 }
 
-// groupActors lists the run.Group.Add registrations inside fn.
+// groupActors lists the run.Group.Add registrations made by fn, directly or through
+// helper functions of the same package that it calls statically (registrations
+// extracted into helpers); bodies of closures are not entered.
 func groupActors(fn *ssa.Function) []actor {
 	var out []actor
-	Calls(fn, func(cc ssa.CallInstruction) {
-		call, ok := cc.(*ssa.Call)
-		if !ok || ir.CallName(call) != "(*github.com/oklog/run.Group).Add" || len(call.Call.Args) != 3 {
+	seen := map[*ssa.Function]bool{}
+	var visit func(f *ssa.Function, depth int)
+	visit = func(f *ssa.Function, depth int) {
+		if seen[f] || depth > 4 || len(f.Blocks) == 0 {
 			return
 		}
-		out = append(out, actor{add: call, execute: fnOfValue(call.Call.Args[1]), intr: fnOfValue(call.Call.Args[2]), in: fn})
-	})
+		seen[f] = true
+		Calls(f, func(cc ssa.CallInstruction) {
+			call, ok := cc.(*ssa.Call)
+			if !ok {
+				return
+			}
+			if ir.CallName(call) == "(*github.com/oklog/run.Group).Add" && len(call.Call.Args) == 3 {
+				out = append(out, actor{add: call, execute: fnOfValue(call.Call.Args[1]), intr: fnOfValue(call.Call.Args[2]), in: f})
+				return
+			}
+			if st := ir.Callee(call).Static; st != nil && ir.Callee(call).Closure == nil && st.Parent() == nil && load_FuncPkgPath(st) == load_FuncPkgPath(fn) && st != fn {
+				// only helpers that receive the group: a *run.Group parameter
+				for _, p := range st.Params {
+					if n := ir.NamedOf(p.Type()); n != nil && n.Obj().Name() == "Group" && n.Obj().Pkg() != nil && n.Obj().Pkg().Path() == "github.com/oklog/run" {
+						visit(st, depth+1)
+						break
+					}
+				}
+			}
+		})
+	}
+	visit(fn, 0)
 	return out
 }
 
@@ -352,9 +375,10 @@ func (c *Ctx) ruleReadback(tb *ir.TB) {
 
 func (c *Ctx) ruleSignal(tb *ir.TB) {
 	n := 0
-	for _, fn := range c.P.Funcs {
+	rootP := func(v ssa.Value) ssa.Value { return ir.RootP(v, c.StaticCallers) }
+	for _, nfn := range c.P.Funcs {
 		var notify *ssa.Call
-		Calls(fn, func(cc ssa.CallInstruction) {
+		Calls(nfn, func(cc ssa.CallInstruction) {
 			if call, ok := cc.(*ssa.Call); ok && ir.CallName(call) == "os/signal.Notify" {
 				notify = call
 			}
@@ -363,8 +387,29 @@ func (c *Ctx) ruleSignal(tb *ir.TB) {
 			continue
 		}
 		n++
+		// the daemon function: walk up through unique static callers (registrations may live in helpers)
+		fn := nfn
+		hasWithCancel := func(f *ssa.Function) bool {
+			found := false
+			for g := range c.Closure([]*ssa.Function{f}, true, func(x *ssa.Function) bool { return load_FuncPkgPath(x) != load_FuncPkgPath(f) }) {
+				Calls(g, func(cc ssa.CallInstruction) {
+					if ir.CallName(cc) == "context.WithCancel" {
+						found = true
+					}
+				})
+			}
+			return found
+		}
+		for i := 0; i < 4 && !hasWithCancel(fn); i++ {
+			cs := c.StaticCallers(fn)
+			if len(cs) != 1 || fn.Parent() != nil {
+				break
+			}
+			fn = cs[0].Parent()
+		}
 		fk := c.FK(fn)
-		ch := ir.Root(notify.Call.Args[0])
+		scope := c.Closure([]*ssa.Function{fn}, true, func(f *ssa.Function) bool { return load_FuncPkgPath(f) != load_FuncPkgPath(fn) })
+		ch := rootP(notify.Call.Args[0])
 		// (1) signals
 		sigs := map[string]bool{}
 		if va := ir.VarArgs(notify.Call.Args[1]); va != nil {
@@ -376,19 +421,21 @@ func (c *Ctx) ruleSignal(tb *ir.TB) {
 		hasTerm := sigs["const:15"]
 		hasInt := sigs["const:2"] || sigs["global:os.Interrupt"]
 		if hasTerm && hasInt {
-			c.R.Ok("R-signal", fk+"|notify-signals", fk, c.P.Pos(notify.Pos()), "signal.Notify registers SIGTERM and SIGINT")
+			c.R.Ok("R-signal", fk+"|notify-signals", c.FK(nfn), c.P.Pos(notify.Pos()), "signal.Notify registers SIGTERM and SIGINT")
 		} else {
-			c.R.Bad("R-signal", fk+"|notify-signals", fk, c.P.Pos(notify.Pos()), sprintf("signal.Notify does not register both SIGTERM and SIGINT (has %v)", sigs))
+			c.R.Bad("R-signal", fk+"|notify-signals", c.FK(nfn), c.P.Pos(notify.Pos()), sprintf("signal.Notify does not register both SIGTERM and SIGINT (has %v)", sigs))
 		}
-		// context.WithCancel
+		// context.WithCancel anywhere in the daemon's scope
 		var withCancel *ssa.Call
-		Calls(fn, func(cc ssa.CallInstruction) {
-			if call, ok := cc.(*ssa.Call); ok && ir.CallName(call) == "context.WithCancel" {
-				withCancel = call
-			}
-		})
+		for f := range scope {
+			Calls(f, func(cc ssa.CallInstruction) {
+				if call, ok := cc.(*ssa.Call); ok && ir.CallName(call) == "context.WithCancel" {
+					withCancel = call
+				}
+			})
+		}
 		if withCancel == nil {
-			c.R.Bad("R-signal", fk+"|cancel-context", fk, c.P.Pos(fn.Pos()), "no context.WithCancel in the function that registers the signal channel")
+			c.R.Bad("R-signal", fk+"|cancel-context", fk, c.P.Pos(fn.Pos()), "no context.WithCancel in the daemon function that registers the signal channel")
 			continue
 		}
 		ctxV, cancelV := resultOfCall(withCancel, 0), resultOfCall(withCancel, 1)
@@ -399,21 +446,21 @@ func (c *Ctx) ruleSignal(tb *ir.TB) {
 			if a.execute == nil {
 				continue
 			}
+			isRecv := func(ins ssa.Instruction) bool {
+				u, ok := ins.(*ssa.UnOp)
+				return ok && u.Op == token.ARROW && rootP(u.X) == ch
+			}
 			hasRecv := false
 			Instrs(a.execute, func(ins ssa.Instruction) {
-				if u, ok := ins.(*ssa.UnOp); ok && u.Op == token.ARROW && ir.Root(u.X) == ch {
+				if isRecv(ins) {
 					hasRecv = true
 				}
 			})
 			if !hasRecv {
 				continue
 			}
-			early := returnsFrom([]ir.Point{{Block: a.execute.Blocks[0]}}, ir.Search{StopInstr: func(ins ssa.Instruction) bool {
-				u, ok := ins.(*ssa.UnOp)
-				return ok && u.Op == token.ARROW && ir.Root(u.X) == ch
-			}})
-			reachesRet := len(ir.Returns(a.execute)) > 0
-			if len(early) == 0 && reachesRet {
+			early := returnsFrom([]ir.Point{{Block: a.execute.Blocks[0]}}, ir.Search{StopInstr: isRecv})
+			if len(early) == 0 && len(ir.Returns(a.execute)) > 0 {
 				sigActor = true
 				c.R.Ok("R-signal", fk+"|signal-actor", c.FK(a.execute), c.P.Pos(a.execute.Pos()), "an actor of the group returns exactly after receiving from the notify channel")
 			}
@@ -435,7 +482,7 @@ func (c *Ctx) ruleSignal(tb *ir.TB) {
 				if _, isGo := ins.(*ssa.Go); isGo {
 					return false
 				}
-				return cancelV != nil && ir.Root(cc.Common().Value) == ssa.Value(cancelV)
+				return cancelV != nil && rootP(cc.Common().Value) == ssa.Value(cancelV)
 			}
 			has := false
 			Instrs(a.intr, func(ins ssa.Instruction) {
@@ -457,7 +504,7 @@ func (c *Ctx) ruleSignal(tb *ir.TB) {
 		}
 		// (4) FanController.Run receives that context
 		nrun := 0
-		for f := range c.Closure([]*ssa.Function{fn}, true, nil) {
+		for f := range scope {
 			Calls(f, func(cc ssa.CallInstruction) {
 				if !isControllerCall(cc, "Run") {
 					return
@@ -468,7 +515,7 @@ func (c *Ctx) ruleSignal(tb *ir.TB) {
 					return
 				}
 				arg := args[len(args)-1]
-				if ctxV != nil && ir.Root(arg) == ssa.Value(ctxV) {
+				if ctxV != nil && rootP(arg) == ssa.Value(ctxV) {
 					c.R.Ok("R-signal", fk+"|controller-context", c.FK(f), c.P.Pos(cc.Pos()), "FanController.Run is given the cancellable context")
 				} else {
 					c.R.Bad("R-signal", fk+"|controller-context", c.FK(f), c.P.Pos(cc.Pos()), "FanController.Run is not given the context cancelled on shutdown: "+tb.Of(arg, nil).String())
@@ -479,20 +526,21 @@ func (c *Ctx) ruleSignal(tb *ir.TB) {
 			c.R.Undecided("R-signal", fk+"|controller-context", fk, c.P.Pos(fn.Pos()), "no FanController.Run call found next to the signal handling (anchor unresolved)")
 		}
 		// (5) close(ch) only after signal.Stop(ch)
-		for f := range c.Closure([]*ssa.Function{fn}, true, nil) {
+		for f := range scope {
 			isStop := func(ins ssa.Instruction) bool {
 				call, ok := ins.(*ssa.Call)
-				return ok && ir.CallName(call) == "os/signal.Stop" && ir.Root(call.Call.Args[0]) == ch
+				return ok && ir.CallName(call) == "os/signal.Stop" && rootP(call.Call.Args[0]) == ch
 			}
+			ff := f
 			Instrs(f, func(ins ssa.Instruction) {
 				cc, ok := ins.(ssa.CallInstruction)
-				if !ok || ir.Callee(cc).Builtin != "close" || ir.Root(cc.Common().Args[0]) != ch {
+				if !ok || ir.Callee(cc).Builtin != "close" || rootP(cc.Common().Args[0]) != ch {
 					return
 				}
 				key := fk + "|close-after-stop"
 				reached := false
 				_, deferred := ins.(*ssa.Defer)
-				ir.Search{StopInstr: isStop}.Reach([]ir.Point{{Block: f.Blocks[0]}}, func(x ssa.Instruction, _ *ssa.BasicBlock) {
+				ir.Search{StopInstr: isStop}.Reach([]ir.Point{{Block: ff.Blocks[0]}}, func(x ssa.Instruction, _ *ssa.BasicBlock) {
 					if deferred {
 						if _, isRD := x.(*ssa.RunDefers); isRD {
 							reached = true
@@ -502,9 +550,9 @@ func (c *Ctx) ruleSignal(tb *ir.TB) {
 					}
 				})
 				if reached {
-					c.R.Bad("R-signal", key, c.FK(f), c.P.Pos(ins.Pos()), "the channel registered with signal.Notify is closed on a path without a preceding signal.Stop: a further SIGTERM/SIGINT makes os/signal send on a closed channel (panic)")
+					c.R.Bad("R-signal", key, c.FK(ff), c.P.Pos(ins.Pos()), "the channel registered with signal.Notify is closed on a path without a preceding signal.Stop: a further SIGTERM/SIGINT makes os/signal send on a closed channel (panic)")
 				} else {
-					c.R.Ok("R-signal", key, c.FK(f), c.P.Pos(ins.Pos()), "signal.Stop precedes the close of the notify channel on every path")
+					c.R.Ok("R-signal", key, c.FK(ff), c.P.Pos(ins.Pos()), "signal.Stop precedes the close of the notify channel on every path")
 				}
 			})
 		}
